@@ -5,11 +5,18 @@ import os
 import common
 
 RENAMES = ["-Dread=vf_read", "-Dwrite=vf_write", "-Dsendto=vf_sendto", "-Drecv=vf_recv", "-Drecvfrom=vf_recvfrom",
-           "-Dpoll=vf_poll", "-Dclock_gettime=vf_clock_gettime", "-Dclose=vf_close"]
+           "-Dpoll=vf_poll", "-Dclock_gettime=vf_clock_gettime", "-Dclose=vf_close",
+           "-Dtimerfd_create=vf_timerfd_create", "-Dtimerfd_settime=vf_timerfd_settime", "-Dsocket=vf_socket",
+           "-Dioctl=vf_ioctl", "-Dsetsockopt=vf_setsockopt", "-Dbind=vf_bind", "-Dprintf=vf_printf"]
+# examples/common/common.c is linked for its time/timer/present helpers; its socket set-up
+# functions are renamed away in favour of the stand-ins in vio.c
+COMMON_AWAY = ["-Dcreate_listener_socket_udp=real_create_listener_socket_udp", "-Dcreate_listener_socket=real_create_listener_socket",
+               "-Dcreate_talker_socket=real_create_talker_socket", "-Dcreate_talker_socket_udp=real_create_talker_socket_udp",
+               "-Dsetup_socket_address=real_setup_socket_address", "-Dsetup_udp_socket_address=real_setup_udp_socket_address"]
 SAN = ["clang", "-O1", "-g", "-fsanitize=address,undefined", "-fno-sanitize-recover=all", "-fno-omit-frame-pointer", "-w"]
 
 
-def build(name, parts, main_src, libs=("src/avtp/*.c", "src/avtp/acf/*.c", "src/avtp/acf/custom/*.c", "src/avtp/aaf/*.c", "src/avtp/cvf/*.c"), extra_defs=()):
+def build(name, parts, main_src, libs=("src/avtp/*.c", "src/avtp/acf/*.c", "src/avtp/acf/custom/*.c", "src/avtp/aaf/*.c", "src/avtp/cvf/*.c"), extra_defs=(), extra_objs=()):
     """parts: list of (example source relative to /repo/examples, main symbol)"""
     R = common.REPO
     out = os.path.join(common.BUILD, "ex")
@@ -27,10 +34,35 @@ def build(name, parts, main_src, libs=("src/avtp/*.c", "src/avtp/acf/*.c", "src/
         for pat in libs:
             libsrc += sorted(glob.glob(os.path.join(R, pat)))
         exe = os.path.join(out, name)
-        r = common.run(SAN + inc + [os.path.join(common.VERIF, "harness", "ex", "vio.c"), os.path.join(common.VERIF, "harness", "ex", main_src)] + objs + libsrc + ["-o", exe, "-lm"])
+        r = common.run(SAN + inc + [os.path.join(common.VERIF, "harness", "ex", "vio.c"), os.path.join(common.VERIF, "harness", "ex", main_src)] + objs + list(extra_objs) + libsrc + ["-o", exe, "-lm"])
         if r.returncode != 0:
             raise common.ToolError("example harness %s does not link: %s" % (name, r.stderr[-2000:]))
     return exe
+
+
+LISTENERS = {
+    "can": "acf-can/acf-can-listener.c",
+    "cvf": "cvf/cvf-listener.c",
+    "aaf": "aaf/aaf-listener.c",
+    "hello": "hello-world/hello-world-listener.c",
+    "vss": "acf-vss/acf-vss-listener.c",
+    "crf": "crf/crf-listener.c",
+}
+
+
+def build_listener(which):
+    """harness around one listener's real main(); examples/common/common.c linked with its
+    system calls renamed like the listener's"""
+    R = common.REPO
+    out = os.path.join(common.BUILD, "ex")
+    os.makedirs(out, exist_ok=True)
+    inc = ["-I", os.path.join(R, "include"), "-I", os.path.join(R, "examples"), "-I", os.path.join(common.VERIF, "harness", "ex")]
+    obj = os.path.join(out, "common_real.o")
+    with common.Lock("ex_common"):
+        r = common.run(SAN + inc + RENAMES + COMMON_AWAY + ["-c", os.path.join(R, "examples", "common", "common.c"), "-o", obj])
+        if r.returncode != 0:
+            raise common.ToolError("examples/common/common.c does not compile in the harness: %s" % r.stderr[-2000:])
+    return build("ex_l_" + which, [(LISTENERS[which], "listener_main")], "ex_listener_main.c", extra_objs=[obj])
 
 
 def build_can():
